@@ -228,7 +228,69 @@ pub fn big_lens(thorough: bool) -> Vec<usize> {
     v
 }
 
+/// conc build: the same cases for lengths around the parallel batch boundaries, under every thread
+/// count and every single-region deviation of the controlled scheduler (engine E3)
+#[cfg(feature = "conc")]
+fn run_conc(args: &Args) -> ! {
+    let mut report = Report::new(args, "exploration");
+    let thorough = args.tier == mck::Tier::Thorough;
+    let lens: Vec<usize> = if thorough { vec![1023, 1024, 1025, 2048, 2049, 3072, 4095, 4096, 4097, 8192, 16384, 16385, 32768] } else { vec![1024, 2048, 2049, 4096, 8192] };
+    let ts_all = [1usize, 2, 3, 4, 5, 8, 16];
+    let ts_dev: Vec<usize> = if thorough { vec![2, 3, 4, 8] } else { vec![2, 4] };
+    fn one<E: FieldElement>(name: &str, len: usize, ts_all: &[usize], ts_dev: &[usize]) -> (Sweep, rayon::ExploreStats) {
+        let mut s = Sweep::new();
+        let st = rayon::explore(ts_all, ts_dev, 1, |tag| {
+            let tag = format!(" [{tag}]");
+            let t = rayon::current_num_threads().next_power_of_two();
+            // zeros on every edge of the batches this thread count produces
+            let bs = (len / t).max(1);
+            let mut edges: Vec<usize> = (0..=len / bs).flat_map(|k| [(k * bs).saturating_sub(1), k * bs]).filter(|p| *p < len).collect();
+            edges.sort();
+            edges.dedup();
+            for zeros in [vec![], edges, vec![0, len - 1]] {
+                batch_inversion_case::<E>(name, len, &zeros, &tag, &mut s);
+            }
+            power_series_case::<E>(name, len, &tag, &mut s);
+            accumulate_case::<E>(name, len, &tag, &mut s);
+        });
+        (s, st)
+    }
+    let jobs: Vec<(usize, usize)> = (0..3).flat_map(|f| lens.iter().map(move |l| (f, *l))).collect();
+    let outs = mck::par_map(jobs.len(), |j| match jobs[j].0 {
+        0 => one::<f64::BaseElement>("f64", jobs[j].1, &ts_all, &ts_dev),
+        1 => one::<f128::BaseElement>("f128", jobs[j].1, &ts_all, &ts_dev),
+        _ => one::<QuadExtension<f64::BaseElement>>("f64^2", jobs[j].1, &ts_all, &ts_dev),
+    });
+    let (mut sched, mut nontrivial, mut tasks) = (0, 0, 0);
+    let mut evals = 0;
+    let mut regions = vec![];
+    for ((f, l), (s, st)) in jobs.iter().zip(outs) {
+        evals += s.evals;
+        sched += st.schedules;
+        nontrivial += st.nontrivial;
+        tasks += st.task_runs;
+        if *f == 0 {
+            regions.push(json!({"len": l, "regions_(threads,total,multi)": st.regions}));
+        }
+        report.violations(s.viol);
+        for (c, n) in s.more {
+            report.count_more(&c, n);
+        }
+    }
+    report.part("conc build under the controlled scheduler: batch_inversion / power series / add_in_place / mul_acc at the batch boundaries, T in {1,2,3,4,5,8,16}, every region in every alternative order", evals, nontrivial,
+        json!({"schedules": sched, "task_executions": tasks, "lengths": lens, "regions_f64": regions}));
+    report.exhaustive = true;
+    report.bounds = json!({"lengths": lens, "thread_counts": ts_all, "deviation_bound": 1, "alternative_orders": "all m! up to 4 tasks; every rotation and adjacent transposition up to 32"});
+    report.rule = "one case per (function, length, zero pattern, schedule); non-trivial = schedules that run a region with >= 2 tasks out of submission order".into();
+    report.assumptions = vec!["tasks are atomic (no scheduling point inside a task)".into()];
+    report.finish(args)
+}
+
 pub fn run(args: &Args) {
+    #[cfg(feature = "conc")]
+    if args.variant.starts_with("conc") {
+        run_conc(args);
+    }
     let mut report = Report::new(args, "exploration");
     let thorough = args.tier == mck::Tier::Thorough;
     let small = if thorough { 64 } else { 40 };
